@@ -18,7 +18,6 @@ mod world_b;
 mod c_gov;
 mod c_group;
 mod world_c;
-#[cfg(feature = "worlds_bcd")]
 mod world_d;
 
 use std::collections::BTreeMap;
